@@ -379,3 +379,60 @@ theorem reconnect_run (c : Cfg) (hq : Quiet c) (hacc : argsAccepted c.iv c.to = 
   simp only [hhe]
 
 end WS.Lemmas.App
+
+namespace WS.Lemmas.App
+open WS WS.Model.App
+open WS.Spec.AppTrace (cbOnly)
+
+/-- the network skeleton of a trace: connection attempts, sleeps, transport releases, the return -/
+def netOnly (tr : Trace) : Trace :=
+  tr.filter fun te => match te.2 with
+    | .dial _ | .sleep _ | .sockClosed _ | .sockDropped _ | .returned _ => true
+    | _ => false
+
+theorem netOnly_append (a b : Trace) : netOnly (a ++ b) = netOnly a ++ netOnly b := by simp [netOnly]
+
+theorem netOnly_cbTrace (c : Cfg) (calls : Cb → Nat) (t : Nat) (cb : Cb) (args : List Arg) :
+    netOnly (cbTrace c calls t cb args) = [] := by
+  unfold cbTrace netOnly
+  split
+  · rfl
+  · split <;> simp
+
+/-- retries after the first failed attempt at tick `t`: sleep r, then the next attempt exactly r later -/
+def retryTrace (r : Nat) : Nat → Nat → Nat → Trace
+  | _, _, 0 => []
+  | t, i, n + 1 => [(t, .sleep r), (t + r, .dial i), (t + r, .sockClosed i)] ++ retryTrace r (t + r) (i + 1) n
+
+theorem netOnly_wrote (t op : Nat) (p : Bytes) : netOnly [(t, Ev.wrote op p)] = [] := rfl
+
+theorem applyLegal_net (c : Cfg) (s : St) (e : TEv) : netOnly (applyLegal c s e).trace = netOnly s.trace := by
+  unfold applyLegal
+  cases e.ev <;> simp only [netOnly_append, netOnly_cbTrace, netOnly_wrote, List.append_nil]
+
+theorem runLegal_net (c : Cfg) : ∀ (l : List TEv) (s : St), netOnly (runLegal c s l).trace = netOnly s.trace := by
+  intro l
+  induction l with
+  | nil => intro s; rfl
+  | cons e r ih => intro s; simp only [runLegal, List.foldl_cons] at ih ⊢; rw [ih, applyLegal_net]
+
+theorem afterFails_net (r : Nat) : ∀ (ds : List Dial) (s : St),
+    netOnly (afterFails r s ds).trace = netOnly s.trace ++ retryTrace r s.now s.nextIdx ds.length ∧
+    (afterFails r s ds).now = s.now + ds.length * r ∧ (afterFails r s ds).nextIdx = s.nextIdx + ds.length ∧
+    cbOnly (afterFails r s ds).trace = cbOnly s.trace ∧ (afterFails r s ds).calls = s.calls := by
+  intro ds
+  induction ds with
+  | nil => intro s; simp [afterFails, retryTrace]
+  | cons d l ih =>
+    intro s
+    obtain ⟨h1, h2, h3, h4, h5⟩ := ih (failStep r s)
+    simp only [afterFails, List.foldl_cons, List.length_cons] at h1 h2 h3 h4 h5 ⊢
+    refine ⟨?_, ?_, ?_, ?_, ?_⟩
+    · rw [h1]; simp [failStep, netOnly_append, retryTrace, netOnly]
+    · rw [h2]; simp only [failStep]; rw [Nat.add_mul]; omega
+    · rw [h3]; simp only [failStep]; omega
+    · rw [h4]; simp [failStep, cbOnly]
+    · rw [h5]; rfl
+
+
+end WS.Lemmas.App
